@@ -1112,16 +1112,20 @@ func genTypedProgram(r *RNG, model *CfgModel, userClasses []*GClass, n int) []*t
 			st.Feature = "no-parens:" + feature
 			// ti leaves what follows a method without declared parameters alone
 			// (listed finding): such calls get one signature of their own
-			parameterless := len(recvTyAtCall.Atoms) > 0
+			// (for a union receiver: one member whose declarations all are
+			// parameterless is enough, ti decides from that member's declaration,
+			// and the call certainly fails for that member whatever the others say)
+			parameterless := false
 			for _, rcl := range recvTyAtCall.Atoms {
 				ds := model.Lookup(rcl, method, false)
-				if len(ds) == 0 {
-					parameterless = false
-				}
+				memberEmpty := len(ds) > 0
 				for _, d := range ds {
 					if len(d.Params) > 0 {
-						parameterless = false
+						memberEmpty = false
 					}
+				}
+				if memberEmpty {
+					parameterless = true
 				}
 			}
 			if parameterless {
